@@ -201,7 +201,7 @@ Example a_tree_over_proximal_operators :
                       [Op cls_ProximalL1 sp (RSp sp) [Some 2%R; Some 1%R] [] [] [];
                        Op cls_ProxBox_both sp (RSp sp) [Some (-1)%R; Some 1%R] [] [] []]) sp sp [] F.
 Proof.
-  cbv zeta. eexists. apply (D_Comp _ _ _ _ _ _ [] [] None).
+  cbv zeta. eexists. eapply D_Comp with (cl_ := []) (cr := []) (ot := None).
   - apply D_ProxL1. lra.
   - apply D_BoxBoth.
   - constructor.
